@@ -457,6 +457,17 @@ def wl_cms(ctx, rng, case):
             diff = [(i, x, y) for i, (x, y) in enumerate(zip(st["cells"], b["cells"])) if x != y][:8]
             ctx.fail("count-min export differs from the file the C reference writer produces from the same history", differing_cells=diff, totals=(st["added"], b["added"]))
         ctx.count("programs.histories_replayed_by_c_writer")
+        # ---- this sketch is a SHARD: a blank total joins it and goes on counting (also: the shard joins a blank sketch); whatever the
+        # other one does afterwards, this sketch's file stays the file of ITS additions
+        total = cls(width=width, depth=depth)
+        total.join(s)
+        total.add(rng.choice(keys), 7)
+        total.remove(rng.choice(keys), 2)
+        ctx.check(bytes(s) == data, "the exported file of a sketch changed after ANOTHER sketch that had joined it (as a blank receiver) went on counting")
+        total.clear()
+        ctx.check(bytes(s) == data, "the exported file of a sketch changed after another sketch that had joined it was cleared")
+        ctx.counters["disagreements_checked"] += 2
+        ctx.count("programs.shards_joined_by_a_blank_total")
         ctx.observe("cms_modes", mode)
         case.nontrivial = len(hist) > 0
     finally:
